@@ -73,6 +73,7 @@ impl<T: ?Sized + Trace> Weak<T> {
         } else {
             // SAFETY: cc is accessible
             if unsafe { self.cc.as_ref() }.counter_marker().increment_counter().is_err() {
+                #[cfg(kani)] if crate::verif::limit_panic() { return None; } // verification hook (H5): emulated unwinding out of the crate's own limit panic, /verif/DESIGN.md 10.7 (poisoned value, forgotten by the harness; live locals are dropped by this return exactly as by the unwind)
                 panic!("Too many references has been created to a single Cc");
             }
 
@@ -159,6 +160,7 @@ impl<T: ?Sized + Trace> Clone for Weak<T> {
 
         if let Some(wcm) = self.weak_counter_marker() {
             if wcm.increment_counter().is_err() {
+                #[cfg(kani)] if crate::verif::limit_panic() { return Weak { metadata: self.metadata, cc: self.cc, _phantom: PhantomData }; } // verification hook (H5): emulated unwinding out of the crate's own limit panic, /verif/DESIGN.md 10.7 (poisoned value, forgotten by the harness; live locals are dropped by this return exactly as by the unwind)
                 panic!("Too many references has been created to a single Weak");
             }
         }
@@ -354,6 +356,7 @@ impl<T: ?Sized + Trace> Cc<T> {
         let metadata = self.inner().get_or_init_metadata();
 
         if unsafe { metadata.as_ref() }.weak_counter_marker.increment_counter().is_err() {
+            #[cfg(kani)] if crate::verif::limit_panic() { return Weak { metadata: Some(metadata), cc: self.inner_ptr(), _phantom: PhantomData }; } // verification hook (H5): emulated unwinding out of the crate's own limit panic, /verif/DESIGN.md 10.7 (poisoned value, forgotten by the harness; live locals are dropped by this return exactly as by the unwind)
             panic!("Too many references has been created to a single Weak");
         }
 
